@@ -524,6 +524,26 @@ fn judge_rotate_r<R: Real>(cx: &Cx, w: &[u64], got: &[f64; 4], t: &mut Tally) ->
     } else {
         ortho_towards(&ah, &b)
     };
+    // exactly colinear operands (3D): the plane of rotation is free, but the amount is not: the result is |phi| away from
+    // self (0 or pi is the exact angle; glam measures it with acos_approx, accurate to about sqrt(eps) there)
+    if n == 3 {
+        let cr = [a[1].mul(b[2]).sub(a[2].mul(b[1])), a[2].mul(b[0]).sub(a[0].mul(b[2])), a[0].mul(b[1]).sub(a[1].mul(b[0]))];
+        if cr.iter().all(|x| x.f() == 0.0) && la > 0.0 && norm_ref(&b).f() > 0.0 {
+            let th0 = if dot_ref(&a, &b).0.f() >= 0.0 { 0.0 } else { PI };
+            let phi0 = maxa.max(th0 - PI).min(th0).abs();
+            let ga = angle_ref(&a, &g);
+            let tol_a = 2.0 * cx.dtheta_acos(0.0) + kl * u * (1.0 + phi0);
+            t.class(if th0 == 0.0 { "rotate:exactly-colinear(same direction)" } else { "rotate:exactly-colinear(opposite)" });
+            if !((ga - phi0).abs() <= tol_a) {
+                return Err(cx.fail("rotate_towards", format!("operands are exactly colinear (angle {:e}): the result should be {:e} rad away from self (any plane) but is {:e} away, tol {:e}; {}", th0, phi0, ga, tol_a, ctx())));
+            }
+            t.ratio("rotate_towards:colinear", (ga - phi0).abs() / tol_a);
+            if maxa != 0.0 {
+                t.nontrivial(cx.hash(w));
+            }
+            return Ok(());
+        }
+    }
     let vacuous = !(tol_plane <= 1.0) || !(dth <= 1.0) || ortho.is_none();
     if vacuous {
         // the plane (3D) / the angle is not determined within 1 rad: only the well-conditioned clause (length) is judged
